@@ -213,7 +213,61 @@ def oracle_frustrated_reset(args):
     return not problems, {"attempts": attempts, "problems": problems}, {"problems": []}, "; ".join(problems) or "ok"
 
 
-ORACLES = {"whole_run": rc.oracle_whole_run, "first_crossing": oracle_first_crossing, "surface": oracle_surface,
+@safe_oracle
+def oracle_poisson_equivalence(args):
+    """standard FSSH with hopping_probability='poisson' and cumulative FSSH implement the same per-step law: for one rate vector g
+    the standard method's total hop probability is 1 - exp(-G) (G = sum g), what the cumulative accumulator holds after that step
+    from zero; with one threshold the two take the same hop/stay decision; the standard method's target slots have lengths
+    (g_j / G)(1 - exp(-G))"""
+    from mudslide.trajectory_sh import TrajectorySH
+    g = np.array(args["g"], dtype=np.float64)
+    N = len(g)
+    G = math.fsum(g)
+    want = -math.expm1(-G)
+    rho = np.zeros((N, N), dtype=np.complex128)
+    rho[0, 0] = 1.0
+    problems = []
+
+    def std(zeta):
+        t = TrajectorySH(ShellModel(N, [1.0]), [0.0], [0.0], rho, state0=0, dt=1.0, hopping_probability="poisson",
+                         zeta_list=[zeta], seed_sequence=7)
+        r = t.hopper(np.array(g))
+        return (int(r[0]["target"]) if r else -1), float(t.hopping)
+
+    def cum(zeta):
+        t = _mk(N, [zeta, 0.5], 7)
+        r = t.hopper(np.array(g))
+        return bool(r), float(r[0]["prob"]) if r else float(t.prob_cum)
+    _t, hop = std(0.999999)
+    if not close(hop, want, rtol=1e-12, atol=0.0) and abs(hop - want) > 1e-300:
+        problems.append("standard FSSH (poisson): total hop probability %r for rates %r, 1-exp(-G) = %r" % (hop, g.tolist(), want))
+    _a, acc = cum(0.9999999)
+    if not close(acc, want, rtol=1e-12, atol=0.0) and abs(acc - want) > 1e-300:
+        problems.append("cumulative FSSH accumulates %r in one step, 1-exp(-G) = %r" % (acc, want))
+    if 1e-9 < want < 1 - 1e-9:
+        for z in (want * (1 - 1e-6), want * (1 + 1e-6)):
+            if z >= 1.0:
+                continue
+            ts, _h = std(z)
+            tc, _p = cum(z)
+            if (ts >= 0) != tc:
+                problems.append("threshold %r (1-exp(-G) = %r): standard method %s, cumulative %s" %
+                                (z, want, "hops" if ts >= 0 else "stays", "hops" if tc else "stays"))
+        # slot edges of the standard method: cumulative sums of (g_j/G)(1-exp(-G))
+        edges = np.cumsum(g / G * want) if G > 0 else np.zeros(N)
+        for j in range(N):
+            if g[j] <= 0 or edges[j] >= 1.0:
+                continue
+            lo = edges[j - 1] if j else 0.0
+            mid = 0.5 * (lo + edges[j])
+            if edges[j] - lo > 1e-9:
+                tj, _h = std(mid)
+                if tj != j:
+                    problems.append("threshold %r lies in the slot of state %d (edges %r), the standard method picks %d" % (mid, j, edges.tolist(), tj))
+    return not problems, {"total": hop, "problems": problems[:3]}, {"total": want}, "; ".join(problems[:2]) or "ok"
+
+
+ORACLES = {"poisson_equivalence": oracle_poisson_equivalence, "whole_run": rc.oracle_whole_run, "first_crossing": oracle_first_crossing, "surface": oracle_surface,
            "frustrated_reset": oracle_frustrated_reset}
 
 
@@ -288,6 +342,19 @@ def run(ctx):
     ctx.fingerprints["mudslide/cumulative_sh.py"] = fingerprint("mudslide/cumulative_sh.py", ["hopper", "__init__"])
     ctx.proofs()
     rng = ctx.rng
+    # the per-step law of standard FSSH with Poisson probabilities is the one cumulative FSSH accumulates (second sentence of C09)
+    for i in range(ctx.budget(40, 2000)):
+        N = int(rng.integers(2, 7))
+        g = rng.random(N) * float(rng.choice([1e-3, 0.05, 0.5, 2.0]))
+        g[0] = 0.0
+        if N >= 3 and rng.random() < 0.3:
+            g[int(rng.integers(1, N))] = 0.0
+        a = {"g": [float(v) for v in g]}
+        ok, obs, req, text = oracle_poisson_equivalence(a)
+        ctx.case(("poisson-equivalence", N, int(np.sum(g > 0))) if N >= 3 else None)
+        ctx.count("poisson_equivalence")
+        if not ok:
+            ctx.oracle_fail("poisson-equivalence", "poisson_equivalence", a, obs, req, text)
     # whole cumulative-FSSH runs against the composed step of the model: snapshots, events, accumulator and threshold
     rc.run_correspondence(ctx, ctx.budget(10, 250), hops=True, label="cumrun", cls="TrajectoryCum")
     for i in range(ctx.budget(30, 1500)):
